@@ -40,7 +40,7 @@ CFLAGS = ["-std=gnu11", "-DHAVE_CONFIG_H", "-D_POSIX_C_SOURCE=200809L", "-D_XOPE
           "-D_DEFAULT_SOURCE", "-D_GNU_SOURCE", "-DECHSE_VERIF", "-w", "-g", "-O1"]
 SAN = ["-fsanitize=address,undefined", "-fno-sanitize-recover=all", "-fno-omit-frame-pointer"]
 
-LIB_SOURCES = ["instant.c", "range.c", "dt-strpf.c", "module.c", "hash.c", "intern.c", "state.c",
+LIB_SOURCES = ["instant.c", "range.c", "dt-strpf.c", "hash.c", "intern.c", "state.c",
                "task.c", "strlst.c", "bufpool.c", "event.c", "evstrm.c", "evical.c", "evrrul.c",
                "evmrul.c", "evfilt.c", "tzob.c", "scale.c", "shift.c", "tzraw.c", "bitint.c",
                "echse-genuid.c"]
@@ -401,3 +401,32 @@ def diff_lines(ops, a, b):
         if x != y:
             out.append((i, op, x, y))
     return out
+
+
+def extract_c_function(path, name):
+    """source text of function `name` in a C file: from the line that starts its
+    declaration specifiers up to the closing brace in column 0."""
+    src = open(path).read()
+    m = re.search(r"^%s\s*\(" % re.escape(name), src, re.M)
+    if not m:
+        raise Broken("function %s not found in %s" % (name, path))
+    # declaration specifiers are on the preceding line(s) up to a blank line / closing brace
+    start = m.start()
+    while True:
+        prev = src.rfind("\n", 0, start - 1)
+        line = src[prev + 1:start - 1]
+        if not line.strip() or line.startswith("}") or line.startswith("#") or line.rstrip().endswith(";"):
+            break
+        start = prev + 1
+    end = src.index("\n}", m.start()) + 2
+    return src[start:end] + "\n"
+
+
+def hex16(y, m, d, H, M, S, ms):
+    return "%016x" % (ms | S << 10 | M << 16 | H << 24 | d << 32 | m << 40 | y << 48)
+
+
+def unhex16(s):
+    u = int(s, 16)
+    return (u >> 48 & 0xffff, u >> 40 & 0xff, u >> 32 & 0xff, u >> 24 & 0xff, u >> 16 & 0xff,
+            u >> 10 & 0x3f, u & 0x3ff)
